@@ -65,6 +65,14 @@ check("C16", "TLA+ model of the STRT/STOP/STEP refresh decision (WriteAlgo) mode
       "item is one of the documented ones (explicit disjuncts), that VERS is untouched, that a repeated write is "
       "byte-identical with no further change, and that the output's STRT/STOP/STEP/units are truthful when demanded.",
       TRUSTED, "DESIGN.md 4 C16")
+check("C10", "TLA+ heap model of reads/mutations/writes (ChannelsAlgo) model-checked by TLC; all its histories executed on "
+      "real lasio over the channel x encoding x newline product; digests validated by TLC against Trace_Channels with "
+      "pristine per-(content, options) references computed in fresh interpreters",
+      "Model checking + trace validation: TLC checks ReadIsFunction on the heap model (fresh default items per object; the "
+      "shared-defaults variant is shown to violate it), every history of the model is executed for real with the read "
+      "parameters cycling through the whole channel/encoding/newline product, and Trace_Channels requires every read to "
+      "return exactly the pristine result of its (content, options), every non-ASCII token of the header to survive, "
+      "and every mutation or write of one result to leave all other live results unchanged.", TRUSTED, "DESIGN.md 4 C10")
 
 
 def main():
